@@ -1144,11 +1144,15 @@ class CallMixin:
         c = self.truthy(self.ev(node.args[0], st, True), st)
         return self.ite(c, self.ev(node.args[1], st, True), self.ev(node.args[2], st, True), st)
 
-    def _in_snapshot(self, node, st, snap):
+    def _in_snapshot(self, node, st, snap, keep_new=False):
         if snap is None:
             raise Unsupported("no snapshot for old()/before()")
         tmp = State(self.ctx)
         tmp.env = dict(snap.env)
+        if keep_new:
+            # before(e): a local that did not exist when the loop started (its own loop variable) denotes its current value
+            for k, v in st.env.items():
+                tmp.env.setdefault(k, v)
         tmp.heap = dict(snap.heap)
         tmp.bound = dict(st.bound)
         tmp.pc = st.pc
@@ -1168,7 +1172,7 @@ class CallMixin:
             n = node.args[1].value
         else:
             n = st.cur_loop[-1]
-        return self._in_snapshot(node.args[0], st, st.loops.get(n))
+        return self._in_snapshot(node.args[0], st, st.loops.get(n), keep_new=True)
 
     def spec_fresh(self, node, st):
         v = self.ev(node.args[0], st, True)
